@@ -55,7 +55,8 @@ C34Clause(e) ==
    LET R == RunAt(e)
        M == ToSet(e.modified)
        S == {i \in FI(R) : R.files[i].skipped}
-   IN IF S \cap M # {} THEN "C34.SkippedRewritten"
+   IN IF R.usage # "none" THEN "ok"             \* a usage error stops before any file is looked at (C22)
+      ELSE IF S \cap M # {} THEN "C34.SkippedRewritten"
       ELSE IF e.touched_known /\ S \cap ToSet(e.touched) # {} THEN "C34.SkippedParsed"
       ELSE IF e.touched_known /\ \E i \in FI(R) \ S : ~R.files[i].notree /\ i \notin ToSet(e.touched) THEN "C34.UndersizedNotProcessed"
       ELSE IF e.skipped # NONE /\ e.skipped # SkippedCount(R) THEN "C34.SkippedCounted"
